@@ -13,7 +13,7 @@ for pid in sorted(CLAIMS):
         "quick_cmd": "./check %s --tier quick" % pid,
         "thorough_cmd": "./check %s --tier thorough" % pid,
         "evidence_file": "evidence/%s.json" % pid,
-        "replay_cmd_template": "cat {path}",
+        "replay_cmd_template": "./check --replay {path}",
         "engine": "psv",
         "level_claimed": {"category": "other", "text": c["text"], "design_ref": c.get("design_ref", "DESIGN.md §4 " + pid)},
         "level_note": c["note"],
